@@ -11,7 +11,8 @@
    the shortened value in a new buffer", c_trunc_mode = TruncCopy), and for the configurations accepted by the
    decidable check [mem_static_targets_own] before that repair.
    [mem_ev_ok]: a record is shorter than 2^31 bytes (the stated maximum of the pool arithmetic). *)
-From SV Require Import Model.Common Model.Memory Proofs.MemoryProofs Proofs.MemoryStatic Proofs.MemoryWitnesses.
+From SV Require Import Model.Common Model.Memory Model.MemoryStores Proofs.MemoryProofs Proofs.MemoryStatic Proofs.MemoryWitnesses
+  Proofs.MemoryStoresProofs.
 Open Scope nat_scope.
 
 (* ISOLATION.  In every history (any records before, after and in flight, any order, any pool behaviour) the decoded
@@ -160,6 +161,27 @@ Theorem C12_config_memory_constant :
     g_cfg g = c_cfg_init c /\ g_dirty g = false.
 Proof. exact mem_config_memory_constant. Qed.
 Print Assumptions C12_config_memory_constant.
+
+(* LONG-LIVED STORES (pipeline key sets, metric key sets) keep deep copies: a store of copies reads the same in every
+   state of the pipeline, whatever happens to records, buffers and pools afterwards; routing a record either finds its
+   key bytes or appends exactly these bytes. *)
+Theorem C12_stores_keep_copies :
+  (forall st g g', mem_store_copied st -> mem_store_view g st = mem_store_view g' st) /\
+  (forall g st h keys st' i, mem_store_copied st -> mem_store_route KeepCopy g st h keys = Some (st', i) ->
+     mem_store_copied st' /\ exists kf, mem_key_fields g h keys = Some kf /\
+       ((st' = st /\ mem_store_find g st (map fst kf) 0 = Some i) \/
+        (mem_store_find g st (map fst kf) 0 = None /\ i = length st /\ mem_store_view g st' = mem_store_view g st ++ [map fst kf]))).
+Proof. exact (conj mem_store_view_stable mem_store_route_copy). Qed.
+Print Assumptions C12_stores_keep_copies.
+
+(* REFUTED for a store that would keep the record's strings instead of copies: record A ("appA") creates key set 0 and is
+   released; record B ("appB") is given A's buffer; the stored key now reads "appB", B is routed to A's pipeline and the
+   key set "appA" no longer exists.  With copies B gets key set 1 and "appA" stays. *)
+Theorem C12_store_reference_refuted :
+  wit_route_then KeepCopy = Some ([[[97;112;112;65]%N]], 0, [[[97;112;112;65]%N]; [[97;112;112;66]%N]], 1) /\
+  wit_route_then KeepRef  = Some ([[[97;112;112;65]%N]], 0, [[[97;112;112;66]%N]], 0).
+Proof. exact wit_store_copy_vs_ref. Qed.
+Print Assumptions C12_store_reference_refuted.
 
 (* REFUTED for the code before the repair (truncate in place), without the hypothesis: addFields x1: "abc(EURO)defghijk"
    then truncate x1 to 5 bytes + "..": the same record twice gives "abc.." and then "abc....", and the configuration
